@@ -37,7 +37,19 @@ def parse_line(l):
         f = c.split('/')
         if len(f) >= 7:
             calls.append({'kind': f[0], 'name': f[1], 'state': f[2], 'ctx': f[3], 'ctxArg': f[4], 'payload': f[5], 'slots': f[6]})
-    return {'res': res, 'calls': calls, 'drops': drops.split(), 'obs': obs}
+    return {'res': res, 'calls': calls, 'drops': drops.split(), 'obs': obs,
+            'overlaps': [c for c in trace.split() if c.startswith('overlap/')]}
+
+def strip_overlaps(l):
+    """`overlap/<a>/<b>` trace tokens (an async hook called before the previous one had started) are the
+    harness's own observation; the model has no counterpart, the C15 oracle reads them"""
+    if 'overlap/' not in l:
+        return l
+    parts = l.split(' | ')
+    if len(parts) != 4:
+        return l
+    parts[1] = ' '.join(c for c in parts[1].split() if not c.startswith('overlap/'))
+    return ' | '.join(parts)
 
 def obs_state(obs):
     """(mode, state, ctx or None, slots/reads dict)"""
@@ -99,6 +111,10 @@ def oracles(rec):
         cur = obs_state(o['obs'])
         def fail(p, what):
             out.append({'property': p, 'op_index': i, 'what': what})
+        for ov in o['overlaps']:
+            f_ = ov.split('/')
+            fail('C15', f'hook {f_[2]} was called before hook {f_[1]}, called earlier, had started: hooks of an async '
+                        'transition must run one after the other')
         # ---- C16 bookkeeping: context identity and drop counts
         if op in ('newdyn', 'newtyped', 'default') and o['res'] == 'unit':
             ctx_id = toks[1] if op != 'default' else '0'
@@ -633,6 +649,12 @@ def gen_defs(tier, seed):
         if asy:
             full.append({'id': f'full{k}s', 'feature': False, 'def': [it for it in d if it[0] != 'async'], 'family': 'full',
                          'crate': len(crates), 'mod': 7100 + k, 'twin_of': base['id'], 'twin_kind': 'sync'})
+            # the same shape without state data: the harness's async callbacks then take `&self` (see module_code)
+            dn = T.full_def(asy, pay, concrete=bool(k % 2), dynamic=True, ptype=('PayC' if k == 3 else 'Pay'), data=False)
+            basen = {'id': f'full{k}n', 'feature': False, 'def': dn, 'family': 'full', 'crate': len(crates), 'mod': 7200 + k}
+            full.append(basen)
+            full.append({'id': f'full{k}ns', 'feature': False, 'def': [it for it in dn if it[0] != 'async'], 'family': 'full',
+                         'crate': len(crates), 'mod': 7300 + k, 'twin_of': basen['id'], 'twin_kind': 'sync'})
     crates.append(full)
     return crates
 
@@ -879,7 +901,9 @@ def run(tier, seed, work, repo, suspects=None, strict_suspects=None):
             result['hooks_traced'] += sum(l.count('/') // 6 for l in il)
             rec = {'sid': s['sid'], 'family': s['family'], 'dsl': s['x']['text'], 'feature': s['x']['feature'],
                    'prefix': D.to_prefix(s['x']['def']), 'ops': s['ops'], 'impl': il, 'model': ml, 'info': s['x']['info']}
-            if il != ml:
+            ilc = [strip_overlaps(l) for l in il]
+            if ilc != ml:
+                il_full, il = il, ilc
                 k = next((j for j, (a, b) in enumerate(zip(il, ml)) if a != b), min(len(il), len(ml)))
                 result['model_diffs'].append({'sid': s['sid'], 'family': s['family'], 'dsl': rec['dsl'], 'feature': rec['feature'],
                                               'prefix': rec['prefix'], 'ops': s['ops'][:k + 1], 'op_index': k,
